@@ -25,7 +25,8 @@ def build(mg, d):
     nx, ny, nz = d['shape']
     dx, dy, dz = [num(v) for v in d['dx']], [num(v) for v in d['dy']], [num(v) for v in d['dz']]
     org = [num(v) for v in d['origin']]
-    geo = mg.mulgrid().rectangular(dx, dy, dz, convention=d['conv'], atmos_type=d['atm'], origin=org)
+    kw = dict(chars=d['chars']) if d.get('chars') else {}
+    geo = mg.mulgrid().rectangular(dx, dy, dz, convention=d['conv'], atmos_type=d['atm'], origin=org, **kw)
     surf = [num(v) for v in d['surf']]
     for col, s in zip(geo.columnlist, surf):
         col.surface = s
@@ -109,6 +110,52 @@ def replay(d):
             return True, 'block_mapping (source atmosphere type %d, target %d) raised %s: %s' % (s.atm, t.atm, type(ex).__name__, ex)
         bad = mapping_problems(s, t, tgeo, m)
         return bool(bad), 'block_mapping: ' + ('; '.join(bad[:4]) if bad else 'all obligations hold concretely')
+    if fn == 'refine':
+        import copy
+        import t2incons as ti
+        factor, layers, nvar = int(d['factor']), [int(v) for v in d['layers']], int(d.get('nvar', 2))
+        # s = the geometry before refinement, t = the untouched copy; oracle of the refined one: chosen layers cut in equal parts
+        try:
+            if len(layers) == s.nlay: sgeo.refine_layers(factor=factor)
+            else: sgeo.refine_layers([sgeo.layerlist[li].name for li in layers], factor=factor)
+        except Exception as ex: return True, 'refine_layers raised %s: %s' % (type(ex).__name__, ex)
+        r = copy.copy(s)
+        fz = []
+        for li, v in enumerate([F(num(v)) for v in d['s']['dz']], 1): fz += [v / factor] * factor if li in layers else [v]
+        r.nlay = len(fz)
+        oz = F(num(d['s']['origin'][2]))
+        r.lbot, r.lcen = [oz], [oz]
+        acc = oz
+        for v in fz:
+            acc -= v; r.lbot.append(acc); r.lcen.append(acc + v / 2)
+        r.layname = [l.name for l in sgeo.layerlist]
+        if len(r.layname) != r.nlay + 1: return True, 'refine_layers built %d layers, expected %d' % (len(r.layname) - 1, r.nlay)
+        r.under = {own_block_name(r.conv, r.layname[li], r.colname[k]): (li, k) for li in range(1, r.nlay + 1) for k in range(r.ncol)}
+        r.atmblocks = {}
+        if r.atm == 0: r.atmblocks[own_block_name(r.conv, r.layname[0], ['ATM', ' 0', '  0', 'ATM'][r.conv])] = None
+        elif r.atm == 1:
+            for k in range(r.ncol): r.atmblocks[own_block_name(r.conv, r.layname[0], r.colname[k])] = k
+        bad = []
+        want = list(r.atmblocks) + [nm for nm, (li, k) in r.under.items() if r.surf[k] > r.lbot[li]]
+        if sorted(want) != sorted(sgeo.block_name_list): bad.append('block list of the refined geometry: %r, expected %r' % (sgeo.block_name_list[:8], want[:8]))
+        try:
+            m1 = sgeo.block_mapping(tgeo)
+            bad += ['refined -> original: ' + b for b in mapping_problems(r, t, tgeo, m1)]
+            m2 = tgeo.block_mapping(sgeo)
+            bad += ['original -> refined: ' + b for b in mapping_problems(t, r, sgeo, m2)]
+            m3 = sgeo.block_mapping(sgeo)
+            bad += ['refined onto itself: %r -> %r' % (b, m3.get(b)) for b in sgeo.block_name_list if m3.get(b) != b]
+            src = ti.t2incon()
+            for bi, nm in enumerate(sgeo.block_name_list): src[nm] = ti.t2blockincon([1.e5 + bi] + [float(j) for j in range(1, nvar)], nm)
+            inc = ti.t2incon()
+            inc.transfer_from(src, sgeo, tgeo)
+            for nm in tgeo.block_name_list:
+                if nm in t.atmblocks: continue
+                if m1.get(nm) not in src._block or list(inc[nm].variable) != list(src[m1[nm]].variable):
+                    bad.append('incon refined -> original: block %r does not have the state of %r' % (nm, m1.get(nm)))
+        except Exception as ex:
+            return True, 'after refine_layers(%r, factor = %d): raised %s: %s' % (layers, factor, type(ex).__name__, ex)
+        return bool(bad), 'refine_layers(%r, factor = %d): ' % (layers, factor) + ('; '.join(bad[:4]) if bad else 'all obligations hold concretely')
     if fn == 'move':
         import copy
         try:
@@ -131,7 +178,10 @@ def replay(d):
         nvar = d['nvar']
         state = {nm: [num(v) for v in vs] for nm, vs in d['state'].items()}
         src = ti.t2incon()
-        for bi, nm in enumerate(sgeo.block_name_list):
+        stored = list(enumerate(sgeo.block_name_list))
+        if d.get('order') == 'reversed': stored.reverse()
+        elif d.get('order') == 'rotated': stored = stored[1:] + stored[:1]
+        for bi, nm in stored:
             src[nm] = ti.t2blockincon(list(state.get(nm, [float(bi + j) for j in range(nvar)])), nm, porosity=0.1 + 0.01 * bi)
         before = [(b.block, list(b.variable), b.porosity) for b in src._blocklist]
         inc = ti.t2incon()
@@ -147,7 +197,7 @@ def replay(d):
                 got = [float(v) for v in inc[nm].variable]
                 if nm in t.atmblocks:
                     if s.atm == 2: want = [float(v) for v in DEFAULT_ATM]
-                    elif s.atm == 0: want = before[0][1]
+                    elif s.atm == 0: want = list(src[list(s.atmblocks)[0]].variable)     # the state of the source's atmosphere BLOCK
                     elif t.atm == 0:
                         keys = list(s.atmblocks)
                         want = [sum(src[a].variable[j] for a in keys) / len(keys) for j in range(nvar)]
@@ -169,7 +219,8 @@ def replay(d):
         vals = {k: num(v) for k, v in d.get('values', {}).items()}
         dat = td.t2data(); dat.grid = tg.t2grid().fromgeo(sgeo)
         gens, follow = [], []
-        for gi, nm, blk, typ, ntab, enth, follows in generator_plan(conv, d['layout'], s.colname, s.layname):
+        for gi, nm, blk, typ, ntab, enth, follows, where, ren in generator_plan(conv, d['layout'], s.colname, s.layname):
+            follows = ren if (where != 'interior' or d.get('rename')) else nm      # the name the generator must have afterwards
             kw = dict(name=nm, block=blk, type=typ)
             if ntab:
                 kw.update(ltab=ntab, time=[vals.get('g%d_t%d' % (gi, j), float(j)) for j in range(ntab)],
@@ -191,10 +242,10 @@ def replay(d):
             if isinstance(a, list): return len(a) == len(b) and all(close(x, y) for x, y in zip(a, b))
             if isinstance(a, float) and isinstance(b, float): return abs(a - b) <= 1e-9 * max(1.0, abs(a))
             return a == b
-        for sn, fo in zip(snap, follow):
-            cand = [r for r in res if r[1] == sn[1] and (r[0] == sn[0] or not fo)]
-            if len(cand) != 1: bad.append('generator %r at %r not found' % (sn[0], sn[1]))
-            elif not all(close(a, b) for a, b in zip(cand[0][1 if not fo else 0:], sn[1 if not fo else 0:])): bad.append('generator %r changed: %r -> %r' % (sn[0], sn, cand[0]))
+        for sn, expname in zip(snap, follow):
+            cand = [r for r in res if r[1] == sn[1] and r[0] == expname]
+            if len(cand) != 1: bad.append('generator %r at %r not found under the name %r: result has %r' % (sn[0], sn[1], expname, [(r[1], r[0]) for r in res]))
+            elif not all(close(a, b) for a, b in zip(cand[0][1:], sn[1:])): bad.append('generator %r changed: %r -> %r' % (sn[0], sn, cand[0]))
         if not close(float(sum(r[5] or 0.0 for r in res if not r[3])), float(sum(r[5] or 0.0 for r in snap if not r[3]))):
             bad.append('total generation changed')
         now = [(g.name, g.block, g.type, g.ltab, g.itab, g.gx, g.ex, list(g.time), list(g.rate), list(g.enthalpy)) for g in gens]
